@@ -129,11 +129,12 @@ Definition set_quota_r (s : est) (q : res V) : est := match q with Ok q => set_q
 
 Definition elected_surplus (s : est) : V := vsum A (map (fun c => sub A (cvote c) (quota s)) (electeds A s)).
 
-Definition update_kfs (s : est) : est :=
+(* D.8 / B.2.f; [clamp]: meek.py keeps the factor from passing 1 (fix F12), the PRF reference rule prescribes the bare update *)
+Definition update_kfs (clamp : bool) (s : est) : est :=
   fold_left (fun s c =>
     if crashed s then s else
     match kdiv A (kmul A (kf_of c) (quota s) true) (cvote c) true with
-    | Ok k => upd A s (cid c) (fun c => with_kf c (Some k))
+    | Ok k => let k' := if clamp && gtv A k V1 then V1 else k in upd A s (cid c) (fun c => with_kf c (Some k'))
     | Raise e => set_crash s e
     end) (electeds A s) s.
 
@@ -159,7 +160,7 @@ Definition meek_iterate : cmd :=
       Skip ;;
     Do (fun s => set_batch s (if cf_batch cfg then map (@cid A) (batch_defeat A cfg (surplus s) s) else [])) ;;
     Ite (fun s => nonempty' (lv_batch s)) (Do (fun s => set_status s IS_batch) ;; Break) Skip ;;
-    Do (fun s => update_kfs (set_last s (surplus s)))).
+    Do (fun s => update_kfs true (set_last s (surplus s)))).
 
 Definition zero_cand (i : Z) (s : est) : est := upd A s i (fun c => with_vote (with_kf c (Some V0)) V0).
 
@@ -294,7 +295,7 @@ Definition prf_iterate_step (s : est) : est :=
     else if gev A (surplus s5) (lv_last s5) then
       log_msg A cfg ("Stable state detected (" ++ str A (surplus s5) ++ ")") (set_status s5 IS_stable)
     else s5 in
-  if lv_status s6 =? IS_iterate then update_kfs (set_last s6 (surplus s6)) else s6.
+  if lv_status s6 =? IS_iterate then update_kfs false (set_last s6 (surplus s6)) else s6.
 
 Definition meek_prf : cmd :=
   Do (fun s =>
